@@ -3,7 +3,7 @@
 //! definition evaluates with `f64` and with dual numbers (forward-mode differentiation). No
 //! derivative formula of any array operation is written by hand here.
 
-use crate::event::{CostKind, CustomKind, Op};
+use crate::event::{Act, CostKind, CustomKind, Op};
 
 pub trait Scalar: Copy {
     fn c(x: f64) -> Self;
@@ -252,11 +252,19 @@ pub fn out_dims(op: &Op, a: &[&[usize]]) -> Option<Vec<usize>> {
             }
             broadcast_dims(a[0], a[1])
         }
-        Op::Neg | Op::Scale(_) | Op::Powf(_) | Op::Ln | Op::Exp | Op::Recip | Op::Relu | Op::Sigmoid | Op::Softmax => {
+        Op::Neg | Op::Scale(_) | Op::Powf(_) | Op::Ln | Op::Exp | Op::Recip | Op::Relu | Op::Sigmoid | Op::Softmax | Op::Activation { .. } => {
             if a.len() != 1 {
                 return None;
             }
             Some(a[0].to_vec())
+        }
+        Op::Stack { .. } => {
+            if a.is_empty() || a.iter().any(|d| *d != a[0]) {
+                return None;
+            }
+            let mut d = vec![a.len()];
+            d.extend_from_slice(a[0]);
+            Some(d)
         }
         Op::Sum(k) => {
             if a.len() != 1 {
@@ -448,6 +456,13 @@ pub fn eval<S: Scalar>(op: &Op, args: &[(&[usize], &[S])]) -> Vec<S> {
             }
             out
         }
+        Op::Activation { act, .. } => match act {
+            Act::None => args[0].1.to_vec(),
+            Act::Relu => eval::<S>(&Op::Relu, args),
+            Act::Sigmoid => eval::<S>(&Op::Sigmoid, args),
+            Act::Softmax => eval::<S>(&Op::Softmax, args),
+        },
+        Op::Stack { .. } => args.iter().flat_map(|a| a.1.iter().copied()).collect(),
         Op::Neg => args[0].1.iter().map(|x| x.neg()).collect(),
         Op::Scale(k) => args[0].1.iter().map(|x| x.scale(*k)).collect(),
         Op::Powf(p) => args[0].1.iter().map(|x| x.powf(*p)).collect(),
@@ -588,8 +603,8 @@ pub fn in_domain(op: &Op, args: &[(&[usize], &[f64])]) -> bool {
                 args[0].1.iter().all(|x| *x >= 0.25 && *x <= 4.0)
             }
         }
-        Op::Relu => args[0].1.iter().all(|x| x.abs() >= 0.125),
-        Op::Exp | Op::Softmax | Op::Sigmoid => args[0].1.iter().all(|x| x.abs() <= 8.0),
+        Op::Relu | Op::Activation { act: Act::Relu, .. } => args[0].1.iter().all(|x| x.abs() >= 0.125),
+        Op::Exp | Op::Softmax | Op::Sigmoid | Op::Activation { .. } => args[0].1.iter().all(|x| x.abs() <= 8.0),
         _ => true,
     }
 }
